@@ -25,6 +25,7 @@ def main():
         prop = meta["property"]
         targets = claimed if all_checks else [prop]
         det = meta.get("detection", {})
+        new_keys = set()
         for t in targets:
             p = subprocess.run([os.path.join(HERE, "tools/try_seed.sh"), t, os.path.join(d, "patch.diff"), tier],
                                capture_output=True, text=True)
@@ -33,12 +34,20 @@ def main():
             counts = {c: int(n) for c, n in re.findall(r"violation-summary clause=(\S+) mech=\S+ route=\S* n=(\d+)", out)}
             summary = [ln for ln in out.split("\n") if ln.startswith("[")]
             sd = os.environ.get("VERIF_SEED")
+            new_keys.add(f"{t}:{tier}" + (f":seed{sd}" if sd else ""))
             det[f"{t}:{tier}" + (f":seed{sd}" if sd else "")] = {"exit": p.returncode, "violated_clauses": clauses, "violations_per_clause": counts,
                                   "summary": summary[-1] if summary else out[-200:]}
             print(sid, t, tier, "exit", p.returncode, clauses, flush=True)
-        meta["detection"] = det
-        with open(os.path.join(d, "meta.json"), "w") as f:
-            json.dump(meta, f, indent=1)
+        # (other lanes may have written other keys meanwhile: merge into the file as it is now)
+        import fcntl
+
+        with open(os.path.join(d, "meta.json"), "r+") as f:
+            fcntl.flock(f, fcntl.LOCK_EX)
+            cur = json.load(f)
+            cur.setdefault("detection", {}).update({k: v for k, v in det.items() if k in new_keys})
+            f.seek(0)
+            f.truncate()
+            json.dump(cur, f, indent=1)
 
 
 if __name__ == "__main__":
